@@ -241,7 +241,7 @@ def _alarm(signum, frame):
     raise _Timeout()
 
 
-CPU_LIMIT_S = 6.0
+CPU_LIMIT_S = 40.0  # the slowest input of the thorough space (`try/else` body + `; ]` tail) needs ~11 CPU-seconds in Execer._parse_ctx_free
 
 
 def _run(src, sess, how, slow_ok=False):
@@ -987,6 +987,7 @@ def run(ctx):
         except S.NotApplicable:
             pass
     drops = {k: v for k, v in sorted(counts.items()) if ":drop" in k or k.endswith(":na") or k.endswith(":accepted")}
+    slow = counts.get("at:drop:slow-parse", 0)
     depth = 3 if ctx.thorough else 2
     ctx.coverage.update(
         evaluations=sum(reached.values()),
@@ -999,7 +1000,8 @@ def run(ctx):
             "xonsh raised SyntaxError); non-trivial = those whose CPython run logged at least one operation on an instrumented object "
             "(py), whose name CPython reports deleted at the use line (del), or whose input raised SyntaxError (atomic)"
         ),
-        exhaustive=True,
+        exhaustive=slow == 0,
+        caps_hit={"cpu_limit_s": CPU_LIMIT_S, "atomic_inputs_cut_by_cpu_limit": slow},
         items=len(items),
         slices=slices,
         reached_by_clause=reached,
